@@ -5,6 +5,7 @@ from __future__ import annotations
 import json
 
 from hypothesis import strategies as st
+from vf.gen.perm import permutations
 
 from vf.common.core import Violation, Inconclusive, check, h64, run_hypothesis
 from vf.common import be
@@ -268,6 +269,72 @@ def first_problem(problems, scenario, schedule, r):
         raise Violation(clause, case_of(scenario, schedule, r), detail)
 
 
+def reduce_violation(check_session, v, budget_s=25.0):
+    """Purpose-built reducer for session cases (Hypothesis' own shrinker gets only seconds in the quick tier and a
+    session costs 0.05-0.3 s): greedily tries simpler variants of the failing case - sequential schedule, fewer boards,
+    default formatting / arrival / team names / ids, no split deliveries - and keeps a variant when the check still fails
+    with the SAME clause.  Bounded by wall clock; the clock decides only how small the replay gets."""
+    import copy
+    import time
+    t0 = time.time()
+    if not isinstance(v.case, dict) or 'scenario' not in v.case:
+        return v
+    best = v
+    extra_keys = ('fault', 'schedule2', 'attempts', 'policy')
+
+    def attempt(scenario, schedule, extra):
+        nonlocal best
+        if time.time() - t0 > budget_s:
+            return False
+        try:
+            check_session(scenario, schedule, None, **extra)
+        except Violation as w:
+            if w.clause == v.clause and isinstance(w.case, dict) and 'scenario' in w.case:
+                best = w
+                return True
+        except Exception:  # noqa  (Inconclusive etc.: not a usable variant)
+            return False
+        return False
+
+    def cur():
+        c = best.case
+        return copy.deepcopy(c['scenario']), copy.deepcopy(c['schedule']), {k: copy.deepcopy(c[k]) for k in extra_keys if k in c and c[k] is not None}
+
+    sc, sched, extra = cur()
+    if sched.get('kind') != 'sequential' or sched.get('stalls'):
+        if not attempt(sc, {'kind': 'sequential'}, dict(extra, **({'schedule2': {'kind': 'sequential'}} if 'schedule2' in extra else {}))):
+            if sched.get('stalls'):
+                attempt(sc, {k: x for k, x in sched.items() if k != 'stalls'}, extra)
+    # fewer boards (a fault's board index moves with the boards in front of it)
+    changed = True
+    while changed and time.time() - t0 <= budget_s:
+        changed = False
+        sc, sched, extra = cur()
+        n = len(sc['boards'])
+        fb = extra.get('fault', {}).get('board') if 'fault' in extra else None
+        for i in list(range(n - 1, -1, -1)):
+            if n <= 1 or i == fb:
+                continue
+            sc2 = dict(sc, boards=sc['boards'][:i] + sc['boards'][i + 1:])
+            ex2 = dict(extra)
+            if fb is not None:
+                ex2['fault'] = dict(extra['fault'], board=fb - 1 if i < fb else fb)
+            if 'policy' not in extra and sc2.get('fmt', {}).get('alerts'):
+                sc2['fmt'] = dict(sc2['fmt'], alerts={})
+            if attempt(sc2, sched, ex2):
+                changed = True
+                break
+    for key, val in (('fmt', {}), ('split', None), ('arrival', [0, 1, 2, 3]), ('teams', ['a', 'b'])):
+        sc, sched, extra = cur()
+        if sc.get(key) != val and not (key == 'fmt' and 'policy' in extra):
+            attempt(dict(sc, **{key: val}), sched, extra)
+    sc, sched, extra = cur()
+    simple = dict(sc, boards=[dict(b, id=str(i + 1), dda=None) for i, b in enumerate(sc['boards'])])
+    if simple != sc:
+        attempt(simple, sched, extra)
+    return best
+
+
 def replay(pid, rec):
     """Re-executes a session case: first along the recorded explicit trace, then (if that passes) with the
     generating schedule."""
@@ -421,7 +488,7 @@ def bundled_scenario(draw, max_boards=3):
     n = draw(st.integers(1, max_boards))
     boards = [{'id': draw(GS.ID_TEXT), 'dealer': draw(st.integers(0, 3)), 'vul': draw(st.sampled_from(['None', 'NS', 'EW', 'Both'])),
                'owner': draw(PL.DEAL), 'dda': None, 'calls': [], 'cards': []} for _ in range(n)]
-    return {'boards': boards, 'teams': [draw(GS.TEAM), draw(GS.TEAM)], 'arrival': draw(st.permutations([0, 1, 2, 3])), 'fmt': {}}
+    return {'boards': boards, 'teams': [draw(GS.TEAM), draw(GS.TEAM)], 'arrival': draw(permutations([0, 1, 2, 3])), 'fmt': {}}
 
 
 def plan_c11(tier):
@@ -468,7 +535,7 @@ def header_scenario(draw):
     n = draw(st.integers(1, 12))
     boards = [{'id': str(i + 1), 'dealer': draw(st.integers(0, 3)), 'vul': draw(st.sampled_from(['None', 'NS', 'EW', 'Both'])),
                'owner': [c // 13 for c in range(52)], 'dda': None, 'calls': [A.PASS] * 4, 'cards': []} for i in range(n)]
-    return {'boards': boards, 'teams': [draw(GS.TEAM), draw(GS.TEAM)], 'arrival': draw(st.permutations([0, 1, 2, 3])), 'fmt': {}}
+    return {'boards': boards, 'teams': [draw(GS.TEAM), draw(GS.TEAM)], 'arrival': draw(permutations([0, 1, 2, 3])), 'fmt': {}}
 
 
 def plan_c19(tier):
